@@ -68,7 +68,9 @@ func DefaultsUniverse() *Universe {
 		// required records with defaults declared after fields of every other kind, in a record with a default of its own
 		late := u.Record(fmt.Sprintf("DL%d", n), nil, Req("head", P(Int32)), Def("own", P(Int32), "5"), Req("inner", direct),
 			Req("arr", ArrayOf(P(Int32))), Req("inner2", onlyInc), Opt("mp", MapOf(P(String))), Req("inner3", twoLevel), Req("tail", P(String)))
-		u.Wrappers = append(u.Wrappers, direct, onlyInc, twoLevel, nested, late)
+		// ... and the same fields inherited through an include
+		lateInc := u.Record(fmt.Sprintf("DLI%d", n), []*Type{late}, Def("own3", P(Int32), "6"), Req("r3", P(String)))
+		u.Wrappers = append(u.Wrappers, direct, onlyInc, twoLevel, nested, late, lateInc)
 	}
 	return u
 }
